@@ -3195,21 +3195,24 @@ static int op_procw(void)
   return nrd + nwr;
 }
 
-static void wait_reinit(void)
+/* returns 1 when the reload is still marked pending after 2 s (reading a few small files
+ * takes milliseconds): the helper thread ended without clearing the mark */
+static int wait_reinit(void)
 {
   /* ares_reinit() re-reads the system configuration on a helper thread; wait
    * for it so that the outcome is deterministic */
   int spins = 0;
-  while (spins++ < 100000) {
+  while (spins++ < 10000) {
     ares_bool_t pending;
     ares_channel_lock(G.channel);
     pending = G.channel->reinit_pending;
     ares_channel_unlock(G.channel);
     if (!pending) {
-      break;
+      return 0;
     }
     usleep(200);
   }
+  return 1;
 }
 
 /* ------------------------------------------------------------------------- */
@@ -4048,8 +4051,11 @@ static void exec_op(const char *optext, int in_cb)
     do_destroy("op");
   } else if (strcmp(op, "reinit") == 0) {
     ares_status_t rc = ares_reinit(G.channel);
-    wait_reinit();
-    ev("REINIT rc=%d", (int)rc);
+    if (wait_reinit()) {
+      ev("REINIT rc=%d stuck=1", (int)rc);
+    } else {
+      ev("REINIT rc=%d", (int)rc);
+    }
   } else if (strcmp(op, "setservers") == 0) {
     int rc;
     if (argc != 2) {
